@@ -20,9 +20,9 @@ CHECKS = {
  "C04": dict(engine="dynmock", technique="runtime monitoring: randomized differential testing of ordered sequences against Spec-M, global index via hook H2",
    text="Every call to an ordered method is judged against the slot arithmetic of Spec-M (accept/reject kind, response, global index); histories follow the expected sequence and deviate at random points.", ref="5 C04", note=A_NOTE),
  "C05": dict(engine="shapegen", technique="runtime monitoring of generated programs: caller, input matcher and answer function log probes and addresses of every argument; generator-side expectation",
-   text="For every generated trait shape (receiver x arity 0-5 x 19 parameter kinds (incl. method generics with and without Send bounds) x 9 return kinds x sync/async forms x api forms) the values and addresses seen by the matcher and the answer function must equal the caller's, position by position; the result must be the answer's; &mut mutations must be visible; async methods evaluate once per await and not at all when dropped unpolled.", ref="5 C05", note=B_NOTE),
+   text="For every generated trait shape (receiver x arity 0-5 x 20 parameter kinds (incl. method generics with and without Send bounds, impl Trait with and without a Future bound; parameter names drawn from the generated impl's own identifiers) x 9 return kinds x sync/async forms x api forms) the values and addresses seen by the matcher and the answer function must equal the caller's, position by position; the result must be the answer's; &mut mutations must be visible; async methods evaluate once per await and not at all when dropped unpolled.", ref="5 C05", note=B_NOTE),
  "C06": dict(engine="shapegen", technique="translation validation by execution: every generated matching! invocation is evaluated on its whole finite argument domain in both evaluation modes and compared with the generator's evaluation of the pattern and a rustc-compiled match",
-   text="For each generated pattern (literals, ranges, bindings, @, or-patterns, tuple/struct/enum/Option/slice patterns, string literals against &str/String/newtype, eq!/ne!, two alternatives, guards incl. ||) the accept/reject decision on every tuple of the domain, with diagnostics off (unordered) and on (ordered), must equal the independent evaluation. A hand-shaped Rust match compiled next to it cross-checks the generator's evaluator; disagreement between the two oracles is inconclusive.", ref="5 C06", note=B_NOTE + " Calibration: at most two top-level alternatives (three or more do not parse in the pinned macro)."),
+   text="For each generated pattern (literals, ranges, bindings, @, or-patterns, tuple/struct/enum/Option/slice patterns, string literals against &str/String/newtype, eq!/ne!, two alternatives, guards incl. ||, argument-level or-patterns of struct/enum/Option cases, open-start and exclusive ranges, binding names drawn from the macro's own identifiers a<i>/m<i>/l<n>) the accept/reject decision on every tuple of the domain, with diagnostics off (unordered) and on (ordered), must equal the independent evaluation. A hand-shaped Rust match compiled next to it cross-checks the generator's evaluator; disagreement between the two oracles is inconclusive.", ref="5 C06", note=B_NOTE + " Calibration: at most two top-level alternatives (three or more do not parse in the pinned macro)."),
  "C07": dict(engine="dynmock", technique="runtime monitoring: decision-table sweep (strict/partial x unmentioned/unmatched/matched x default body/real fn) judged by Spec-M with callback event logs",
    text="Outcome, callback log (which real function / default body ran, with which arguments) and counters compared with Spec-M for every fall-through situation, incl. hand-written partial-by-default MockFns (hook H4).", ref="5 C07", note=A_NOTE),
  "C08": dict(engine="dynmock", technique="runtime monitoring: fault injection (user panics in matcher/answer/real/default callbacks) and mock-induced panics on clones/threads; verification text must contain every recorded error",
@@ -44,11 +44,11 @@ CHECKS = {
  "C16": dict(engine="shapegen", technique="runtime monitoring of generated programs (real functions log arguments, addresses and nested results) plus Spec-M histories (dynmock)",
    text="Generated traits with 1-4 methods and unmock_with lists mixing path / path(params..) / _ and entries for skipped associated functions; every method is unmocked via an empty partial mock and via applies_unmocked(); exactly one invocation of the right function with the caller's arguments, result unchanged, calls back into the mock counted there, `_` panics naming the method.", ref="5 C16", note=B_NOTE),
  "C17": dict(engine="shapegen", technique="runtime monitoring of generated programs: Debug rendering and leaf addresses of every returned value compared with the generator's rendering of the configured value, over a calibrated set of accepted return types",
-   text="273 accepted return types over Option/Result/Vec/Poll/1-4-tuples x owned and borrowed leaves (depth <= 3); every variant, 0-4 elements, distinct leaves; four configuration paths. Returned structure must equal the configured one, borrowed leaves keep their addresses over repeated calls, a further request is refused exactly when an owned leaf was configured through a single-use path.", ref="5 C17", note=B_NOTE + " Accepted types calibrated once: gen/accepted/returns.json."),
+   text="273 accepted return types over Option/Result/Vec/Poll/1-4-tuples x owned and borrowed leaves (depth <= 3); every variant, 0-4 elements, distinct leaves; four configuration paths. Returned structure must equal the configured one, borrowed leaves keep their addresses over repeated calls, a further request is refused exactly when an owned leaf was configured through a single-use path. The forced cases are judged a second time in the no_std + spin-lock build.", ref="5 C17", note=B_NOTE + " Accepted types calibrated once: gen/accepted/returns.json."),
  "C18": dict(engine="dynmock", technique="runtime monitoring: metamorphic testing (run-against-run comparison of the real code, no model)",
    text="Four relations between runs of the real code: clause permutation, routing over clones/threads (optionally with derived mocks parked in instances' own value chains), a second independent mock with interleaved foreign calls, swapped generic instantiations. Any difference in a call outcome or the verification line multiset is a violation.", ref="5 C18", note="No specification involved; trusted: the transformation code in meta.rs. std build only (the documented no_std difference makes routing over clones observable there)."),
  "C19": dict(engine="shapegen", technique="runtime monitoring of generated programs and Spec-M histories: panic texts parsed and compared with rustc's own Debug renderings computed at the call site, captured file:line and the generator's per-argument evaluation",
-   text="(a) every generated method shape is called on mocks that must fail in three ways; the text must start with Trait::method(Debug of each argument, ? for non-Debug). (b) every rejected tuple of every generated matching! pattern: pattern named by source text and file:line (single-line and multi-line invocations); for guard-free single-alternative patterns the listed input positions must be exactly the rejecting ones, each with its value. (c) dynmock: every mock-induced panic kind names its method and pattern.", ref="5 C19", note=B_NOTE + " Known finding F4 (Impossible slot) is listed in known_findings.json."),
+   text="(a) every generated method shape is called on mocks that must fail in three ways; the text must start with Trait::method(Debug of each argument, ? for non-Debug). (b) every rejected tuple of every generated matching! pattern: pattern named by source text and file:line (single-line and multi-line invocations); for guard-free single-alternative patterns the listed input positions must be exactly the rejecting ones, each with its value; the same pattern declared twice on a strict mock must attribute every rejected position to both call patterns (#0 and #1). (c) dynmock: every mock-induced panic kind names its method and pattern.", ref="5 C19", note=B_NOTE + " Known finding F4 (Impossible slot) is listed in known_findings.json."),
  "C20": dict(engine="mirrors", technique="runtime monitoring by differential testing: a plain struct and a Unimock replay the same random script through upstream provided methods; results, buffers and the logged required-method call sequences are compared",
    text="16 families (std io Write/Read/BufRead/Seek, Hasher, Display/Debug directly and as supertraits of a user trait, embedded-hal delay/digital/i2c/spi/pwm, tokio and futures poll traits; Write and DelayNs additionally with the script turned into a chain of ordered next_call patterns and then() series, mixed with an exactly-counted unordered pattern, or into an unordered series with an open tail whose report() exit code is checked): 82 of the mirrored methods are driven; scripts contain short reads/writes, Interrupted, errors, EOF and Pending; strict and partial mocks alternate. The method list is parsed from src/mock/*.rs so that undriven methods are reported.", ref="5 C20", note="Trusted: the plain reference structs in engines/harness/src/bin/mirrors.rs implement only the required methods."),
 }
